@@ -19,18 +19,20 @@ Theorem C12_occurs_at : forall x h i,
 Proof. exact occurs_at_eq. Qed.
 
 (* Rabin-Karp, forward and reverse: every needle, every haystack *)
-Theorem C12_rabinkarp_find : forall x h,
+Theorem C12_rabinkarp_find : forall x h a an,
   fst (rk_find (rk_new x) x h) = Ok (find_spec x h) /\
-  loads_ok 0 (length h) 0 (length x) (snd (rk_find (rk_new x) x h)).
+  loads_ok a (length h) an (length x) (snd (rk_find (rk_new x) x h)).
 Proof.
-  intros x h. destruct (satq_fst _ _ _ (rk_find_correct x h)) as (v & Hv & -> & Ht). split; assumption.
+  intros x h a an. destruct (satq_fst _ _ _ (rk_find_correct x h)) as (v & Hv & -> & Ht). split; [exact Hv|].
+  eapply Forall_impl; [|exact Ht]. intros e He. apply He.
 Qed.
 
-Theorem C12_rabinkarp_rfind : forall x h,
+Theorem C12_rabinkarp_rfind : forall x h a an,
   fst (rk_rfind (rk_new_rev x) x h) = Ok (rfind_spec x h) /\
-  loads_ok 0 (length h) 0 (length x) (snd (rk_rfind (rk_new_rev x) x h)).
+  loads_ok a (length h) an (length x) (snd (rk_rfind (rk_new_rev x) x h)).
 Proof.
-  intros x h. destruct (satq_fst _ _ _ (rk_rfind_correct x h)) as (v & Hv & -> & Ht). split; assumption.
+  intros x h a an. destruct (satq_fst _ _ _ (rk_rfind_correct x h)) as (v & Hv & -> & Ht). split; [exact Hv|].
+  eapply Forall_impl; [|exact Ht]. intros e He. apply He.
 Qed.
 
 (* Shift-Or: supported exactly up to 15 bytes; leftmost occurrence *)
